@@ -188,3 +188,363 @@ Section Handlers2.
     first [assumption | reflexivity].
   Qed.
 End Handlers2.
+
+Lemma bstatus_eqb_eq a b : bstatus_eqb a b = true -> a = b.
+Proof. destruct a, b; cbn; intros H; try discriminate; reflexivity. Qed.
+Lemma opt_str_eqb_eq a b : opt_str_eqb a b = true -> a = b.
+Proof.
+  destruct a as [x|], b as [y|]; cbn; intros H; try discriminate; try reflexivity.
+  apply String.eqb_eq in H. subst. reflexivity.
+Qed.
+Lemma mem_str_In x l : mem_str x l = true -> In x l.
+Proof.
+  induction l as [|y l IH]; cbn; [discriminate|]. intros H. apply orb_true_iff in H as [H|H].
+  - apply String.eqb_eq in H. left. symmetry. exact H.
+  - right. apply IH. exact H.
+Qed.
+Lemma is_admin_true s a : is_admin s a = true -> admin s = Some a.
+Proof. unfold is_admin. apply opt_str_eqb_eq. Qed.
+
+Section Handlers3.
+  Variable va : string -> string -> bool.
+  Variable dv : string -> string -> string -> option string.
+  Variable av : string -> bool.
+  Notation execute := (execute va dv av).
+
+  Lemma assert_admin_ok s i u : assert_admin s i = Ok u -> admin s = Some (sender i).
+  Proof. unfold assert_admin. destruct (is_admin s (sender i)) eqn:E; [intros _; apply is_admin_true; exact E | discriminate]. Qed.
+
+  Ltac prep H :=
+    cbn [Staking.execute] in H;
+    repeat match goal with Hs : check_stopped _ = Ok _ |- _ => apply check_stopped_ok in Hs end.
+  Ltac conv :=
+    repeat match goal with
+    | Hs : check_stopped _ = Ok _ |- _ => apply check_stopped_ok in Hs
+    | Hs : assert_admin _ _ = Ok _ |- _ => apply assert_admin_ok in Hs
+    | Hs : of_opt_err _ _ = Ok _ |- _ => apply of_opt_err_ok in Hs
+    | Hs : of_opt _ _ = Ok _ |- _ => apply of_opt_ok in Hs
+    | Hs : add64 _ _ = Some _ |- _ => apply add64_some in Hs as [-> ?]
+    | Hs : add128 _ _ = Some _ |- _ => apply add128_some in Hs as [-> ?]
+    | Hs : sub_checked _ _ = Some _ |- _ => apply sub_checked_some in Hs as [-> ?]
+    | Hs : bstatus_eqb _ _ = true |- _ => apply bstatus_eqb_eq in Hs
+    end.
+
+  Lemma withdraw_inv s e i id s' r :
+    execute s e i (Withdraw id) = Ok (s', r) ->
+    exists b recv q amount om,
+      stopped (cfg s) = false /\ nfind id (batches s) = Some b /\ b_status b = Received
+      /\ b_received b = Some recv
+      /\ find_request (b_id b) (sender i) (requests s) = Some q
+      /\ mul_ratio recv (r_amount q) (b_total b) = Some amount
+      /\ s' = set_requests s (remove_request (b_id b) (sender i) (requests s))
+      /\ oracle_msgs s' e = Ok om
+      /\ r = plain (ASend (self e) (sender i) {| c_denom := pc_denom (protocol (cfg s)); c_amount := amount |}) :: om.
+  Proof.
+    intros H. cbn [Staking.execute] in H. unfold execute_withdraw in H. inv_ok H. conv.
+    inversion H; subst s' r; clear H.
+    do 5 eexists. repeat split; try eassumption; reflexivity.
+  Qed.
+
+  Lemma receive_rewards_inv s e i s' r :
+    execute s e i ReceiveRewards = Ok (s', r) ->
+    exists c fee om,
+      let D := pc_denom (protocol (cfg s)) in
+      let x := st s in
+      let amount := c_amount c in
+      let after := amount - fee in
+      let sid := sub_id e None in
+      stopped (cfg s) = false /\ total_lst x <> 0
+      /\ hook_sender_ok dv s (nc_collector (native (cfg s))) i = true
+      /\ find_coin D (funds i) = Some c
+      /\ mul_ratio (fee_rate (fees (cfg s))) amount FEE_DENOM = Some fee /\ fee <= amount
+      /\ st s' = set_totals x (total_native x + after) (total_lst x) (total_reward x + amount)
+                   (match fee_treasury (fees (cfg s)) with None => total_fees x + fee | Some _ => total_fees x end)
+      /\ cfg s' = cfg s /\ admin s' = admin s /\ batches s' = batches s /\ pending_id s' = pending_id s
+      /\ requests s' = requests s /\ inflight s' = inflight s /\ version s' = version s
+      /\ waitq s' = ninsert sid {| w_coin := {| c_denom := D; c_amount := after |}; w_receiver := nc_staker (native (cfg s)) |} (waitq s)
+      /\ oracle_msgs s' e = Ok om
+      /\ r = (om ++ [transfer_sub s e sid (nc_staker (native (cfg s))) {| c_denom := D; c_amount := after |} (now_ns e + IBC_TIMEOUT_NS)]
+                 ++ match fee_treasury (fees (cfg s)) with
+                    | Some t => [plain (ABankSend t {| c_denom := D; c_amount := fee |})]
+                    | None => []
+                    end)%list.
+  Proof.
+    intros H. cbn [Staking.execute] in H. unfold receive_rewards in H. inv_ok H. conv.
+    match goal with Hs : ibc_sub _ _ _ _ None = Ok ?p |- _ =>
+      destruct p as [s1 sub]; apply ibc_sub_ok in Hs as (-> & -> & Hw) end.
+    inv_ok H. inversion H; subst s' r; clear H.
+    match goal with Hc : find_coin _ _ = Some ?c, Hf : mul_ratio _ _ FEE_DENOM = Some ?f, Ho : oracle_msgs _ _ = Ok ?om |- _ =>
+      exists c, f, om end.
+    cbn.
+    assert (Hl : total_lst (st s) <> 0) by (match goal with Hn : negb (_ =? 0) = true |- _ => lia end).
+    destruct (fee_treasury (fees (cfg s))) as [t|] eqn:Ft.
+    - match goal with Hs : Ok _ = Ok _ |- _ => inversion Hs; subst end.
+      repeat (split; [first [assumption | reflexivity | lia]|]). first [assumption | reflexivity].
+    - conv. repeat (split; [first [assumption | reflexivity | lia]|]). first [assumption | reflexivity].
+  Qed.
+End Handlers3.
+
+Section Handlers4.
+  Variable va : string -> string -> bool.
+  Variable dv : string -> string -> string -> option string.
+  Variable av : string -> bool.
+  Notation execute := (execute va dv av).
+
+  Ltac conv :=
+    repeat match goal with
+    | Hs : check_stopped _ = Ok _ |- _ => apply check_stopped_ok in Hs
+    | Hs : assert_admin _ _ = Ok _ |- _ => apply assert_admin_ok in Hs
+    | Hs : of_opt_err _ _ = Ok _ |- _ => apply of_opt_err_ok in Hs
+    | Hs : of_opt _ _ = Ok _ |- _ => apply of_opt_ok in Hs
+    | Hs : add64 _ _ = Some _ |- _ => apply add64_some in Hs as [-> ?]
+    | Hs : add128 _ _ = Some _ |- _ => apply add128_some in Hs as [-> ?]
+    | Hs : sub_checked _ _ = Some _ |- _ => apply sub_checked_some in Hs as [-> ?]
+    | Hs : bstatus_eqb _ _ = true |- _ => apply bstatus_eqb_eq in Hs
+    end.
+
+  Lemma receive_unstaked_inv s e i id s' r :
+    execute s e i (ReceiveUnstakedTokens id) = Ok (s', r) ->
+    exists c b t,
+      stopped (cfg s) = false
+      /\ hook_sender_ok dv s (nc_staker (native (cfg s))) i = true
+      /\ find_coin (pc_denom (protocol (cfg s))) (funds i) = Some c
+      /\ nfind id (batches s) = Some b /\ b_status b = Submitted /\ b_time b = Some t /\ t <= now_s e
+      /\ s' = set_batches s (ninsert (b_id b)
+                {| b_id := b_id b; b_total := b_total b; b_expected := b_expected b; b_received := Some (c_amount c);
+                   b_count := b_count b; b_time := None; b_status := Received |} (batches s))
+      /\ r = [].
+  Proof.
+    intros H. cbn [Staking.execute] in H. unfold receive_unstaked_tokens in H. inv_ok H. conv.
+    inversion H; subst s' r; clear H.
+    do 3 eexists. repeat split; try eassumption; try reflexivity. lia.
+  Qed.
+
+  Lemma circuit_breaker_inv s e i s' r :
+    execute s e i CircuitBreaker = Ok (s', r) ->
+    (admin s = Some (sender i) \/ In (sender i) (monitors (cfg s)))
+    /\ s' = set_cfg s (set_stopped (cfg s) true) /\ r = [].
+  Proof.
+    intros H. cbn [Staking.execute] in H. unfold circuit_breaker in H. inv_ok H.
+    inversion H; subst; clear H. split; [| split; reflexivity].
+    match goal with Hc : _ || _ = true |- _ => apply orb_true_iff in Hc as [Hc2|Hc2] end.
+    - left. apply is_admin_true. assumption.
+    - right. apply mem_str_In. assumption.
+  Qed.
+
+  Lemma resume_inv s e i n l rw s' r :
+    execute s e i (ResumeContract n l rw) = Ok (s', r) ->
+    admin s = Some (sender i)
+    /\ s' = set_st (set_cfg s (set_stopped (cfg s) false)) (set_totals (st s) n l rw (total_fees (st s)))
+    /\ oracle_msgs s' e = Ok r.
+  Proof.
+    intros H. cbn [Staking.execute] in H. unfold resume_contract in H. inv_ok H. conv.
+    inversion H; subst; clear H. repeat split; assumption.
+  Qed.
+
+  Lemma fee_withdraw_inv s e i a s' r :
+    execute s e i (FeeWithdraw a) = Ok (s', r) ->
+    exists t,
+      admin s = Some (sender i) /\ a <= total_fees (st s) /\ fee_treasury (fees (cfg s)) = Some t
+      /\ s' = set_st s (set_totals (st s) (total_native (st s)) (total_lst (st s)) (total_reward (st s)) (total_fees (st s) - a))
+      /\ r = [plain (ASend (self e) t {| c_denom := pc_denom (protocol (cfg s)); c_amount := a |})].
+  Proof.
+    intros H. cbn [Staking.execute] in H. unfold fee_withdraw in H. inv_ok H. conv.
+    inversion H; subst; clear H. eexists. repeat split; try eassumption; try reflexivity. lia.
+  Qed.
+
+  Lemma liquid_unstake_inv s e i s' r :
+    execute s e i LiquidUnstake = Ok (s', r) ->
+    exists a b,
+      let p := pending_id s in
+      must_pay i (lst_denom (cfg s)) = Ok a /\ stopped (cfg s) = false
+      /\ nfind p (batches s) = Some b
+      /\ r = []
+      /\ cfg s' = cfg s /\ st s' = st s /\ admin s' = admin s /\ pending_id s' = p /\ inflight s' = inflight s
+      /\ waitq s' = waitq s /\ version s' = version s
+      /\ match find_request p (sender i) (requests s) with
+         | Some q =>
+             requests s' = add_to_request p (sender i) a (requests s)
+             /\ batches s' = ninsert p {| b_id := b_id b; b_total := b_total b + a; b_expected := b_expected b;
+                                          b_received := b_received b; b_count := b_count b; b_time := b_time b;
+                                          b_status := b_status b |} (batches s)
+         | None =>
+             requests s' = (requests s ++ [{| r_batch := p; r_user := sender i; r_amount := a |}])%list
+             /\ batches s' = ninsert p {| b_id := b_id b; b_total := b_total b + a; b_expected := b_expected b;
+                                          b_received := b_received b; b_count := Some (opt_default 0 (b_count b) + 1);
+                                          b_time := b_time b; b_status := b_status b |} (batches s)
+         end.
+  Proof.
+    intros H. cbn [Staking.execute] in H. inv_ok H. unfold execute_liquid_unstake in H. inv_ok H. conv.
+    inversion H; subst s' r; clear H.
+    match goal with Hp : must_pay _ _ = Ok ?a, Hb : nfind _ (batches s) = Some ?b |- _ => exists a, b end.
+    cbn.
+    destruct (find_request (pending_id s) (sender i) (requests s)) as [q|] eqn:Fq.
+    - match goal with Hs : bind _ _ = Ok ?v1 |- _ => inv_ok Hs; inversion Hs; subst v1 end.
+      match goal with Hs : Ok _ = Ok _ |- _ => inversion Hs; subst end.
+      repeat split; first [assumption | reflexivity].
+    - match goal with Hs : Ok true = Ok ?v1 |- _ => inversion Hs; subst v1 end.
+      match goal with Hs : bind _ _ = Ok _ |- _ => inv_ok Hs; conv; inversion Hs; subst end.
+      repeat split; first [assumption | reflexivity].
+  Qed.
+End Handlers4.
+
+Section Handlers5.
+  Variable va : string -> string -> bool.
+  Variable dv : string -> string -> string -> option string.
+  Variable av : string -> bool.
+  Notation execute := (execute va dv av).
+
+  Ltac conv :=
+    repeat match goal with
+    | Hs : check_stopped _ = Ok _ |- _ => apply check_stopped_ok in Hs
+    | Hs : assert_admin _ _ = Ok _ |- _ => apply assert_admin_ok in Hs
+    | Hs : of_opt_err _ _ = Ok _ |- _ => apply of_opt_err_ok in Hs
+    | Hs : of_opt _ _ = Ok _ |- _ => apply of_opt_ok in Hs
+    | Hs : add64 _ _ = Some _ |- _ => apply add64_some in Hs as [-> ?]
+    | Hs : add128 _ _ = Some _ |- _ => apply add128_some in Hs as [-> ?]
+    | Hs : sub_checked _ _ = Some _ |- _ => apply sub_checked_some in Hs as [-> ?]
+    | Hs : bstatus_eqb _ _ = true |- _ => apply bstatus_eqb_eq in Hs
+    end.
+
+  Lemma add_validator_inv s e i v s' r :
+    execute s e i (AddValidator v) = Ok (s', r) ->
+    admin s = Some (sender i) /\ va v (nc_valprefix (native (cfg s))) = true
+    /\ mem_str v (nc_validators (native (cfg s))) = false
+    /\ s' = set_cfg s (set_validators (cfg s) (nc_validators (native (cfg s)) ++ [v])) /\ r = [].
+  Proof.
+    intros H. cbn [Staking.execute] in H. unfold execute_add_validator in H. inv_ok H. conv.
+    inversion H; subst; clear H.
+    repeat split; try assumption.
+    match goal with Hc : negb _ = true |- _ => apply negb_true_iff in Hc; exact Hc end.
+  Qed.
+
+  Lemma remove_validator_inv s e i v s' r :
+    execute s e i (RemoveValidator v) = Ok (s', r) ->
+    admin s = Some (sender i) /\ va v (nc_valprefix (native (cfg s))) = true
+    /\ mem_str v (nc_validators (native (cfg s))) = true
+    /\ s' = set_cfg s (set_validators (cfg s) (remove_first_str v (nc_validators (native (cfg s))))) /\ r = [].
+  Proof.
+    intros H. cbn [Staking.execute] in H. unfold execute_remove_validator in H. inv_ok H. conv.
+    inversion H; subst; clear H. repeat split; assumption.
+  Qed.
+
+  Lemma transfer_ownership_inv s e i o s' r :
+    execute s e i (TransferOwnership o) = Ok (s', r) ->
+    admin s = Some (sender i) /\ av o = true
+    /\ s' = set_st s (set_owner (st s) (Some o) (Some (now_s e + OWNER_DELAY_S))) /\ r = [].
+  Proof.
+    intros H. cbn [Staking.execute] in H. unfold execute_transfer_ownership in H. inv_ok H. conv.
+    inversion H; subst; clear H. repeat split; assumption.
+  Qed.
+
+  Lemma revoke_ownership_inv s e i s' r :
+    execute s e i RevokeOwnershipTransfer = Ok (s', r) ->
+    admin s = Some (sender i) /\ s' = set_st s (set_owner (st s) None None) /\ r = [].
+  Proof.
+    intros H. cbn [Staking.execute] in H. unfold execute_revoke_ownership in H. inv_ok H. conv.
+    inversion H; subst; clear H. repeat split; assumption.
+  Qed.
+
+  Lemma accept_ownership_inv s e i s' r :
+    execute s e i AcceptOwnership = Ok (s', r) ->
+    pending_owner (st s) = Some (sender i)
+    /\ (forall t, owner_min_time (st s) = Some t -> t <= now_s e)
+    /\ s' = set_admin (set_st s (set_owner (st s) None (owner_min_time (st s)))) (Some (sender i)) /\ r = [].
+  Proof.
+    intros H. cbn [Staking.execute] in H. unfold execute_accept_ownership in H. inv_ok H.
+    destruct (pending_owner (st s)) as [p|] eqn:Hp; [|discriminate].
+    destruct (String.eqb p (sender i)) eqn:Heq; [|discriminate].
+    apply String.eqb_eq in Heq. subst p. inversion H; subst; clear H.
+    repeat split; try reflexivity.
+    intros t Ht. match goal with Hc : match owner_min_time _ with Some _ => _ | None => _ end = true |- _ => rewrite Ht in Hc; lia end.
+  Qed.
+
+  Lemma update_config_inv s e i n p f m bp s' r :
+    execute s e i (UpdateConfig n p f m bp) = Ok (s', r) ->
+    exists n' p' f' m',
+      admin s = Some (sender i)
+      /\ match n with Some u => validate_native va u = Some n' | None => n' = native (cfg s) end
+      /\ match p with Some u => validate_protocol va u = Some p' | None => p' = protocol (cfg s) end
+      /\ match f with Some u => validate_fee va u p' = Some f' | None => f' = fees (cfg s) end
+      /\ match m with Some l => validate_addresses va l (pc_prefix p') [] = true /\ m' = l | None => m' = monitors (cfg s) end
+      /\ s' = set_cfg s {| native := n'; protocol := p'; fees := f'; lst_denom := lst_denom (cfg s); monitors := m';
+                           batch_period := opt_default (batch_period (cfg s)) bp; stopped := stopped (cfg s) |}
+      /\ r = [].
+  Proof.
+    intros H. cbn [Staking.execute] in H. unfold update_config in H. inv_ok H. conv.
+    inversion H; subst; clear H.
+    match goal with
+    | Hn : _ = Ok ?n', Hp : _ = Ok ?p', Hf : _ = Ok ?f', Hm : match m with Some _ => _ | None => _ end = Ok ?m' |- _ =>
+        match type of n' with native_cfg => match type of p' with protocol_cfg => match type of f' with fee_cfg =>
+          exists n', p', f', m'; rename Hn into En, Hp into Ep, Hf into Ef, Hm into Em end end end
+    end.
+    split; [assumption|].
+    split; [destruct n; [apply of_opt_err_ok in En; exact En | inversion En; reflexivity]|].
+    split; [destruct p; [apply of_opt_err_ok in Ep; exact Ep | inversion Ep; reflexivity]|].
+    split; [destruct f; [apply of_opt_err_ok in Ef; exact Ef | inversion Ef; reflexivity]|].
+    split; [| split; reflexivity].
+    destruct m as [l|].
+    - match type of Em with (if ?c then Ok _ else _) = Ok _ => destruct c eqn:Hv; [inversion Em; subst; split; reflexivity | discriminate] end.
+    - inversion Em; reflexivity.
+  Qed.
+End Handlers5.
+
+Section Handlers6.
+  Variable va : string -> string -> bool.
+  Variable dv : string -> string -> string -> option string.
+  Variable av : string -> bool.
+  Notation execute := (execute va dv av).
+
+  Definition recover_filter (rcv : string) (p : packet) : bool :=
+    String.eqb (p_receiver p) rcv && refundable (p_status p).
+
+  Lemma recover_inv s e i pg sel rcvo s' r :
+    execute s e i (RecoverPendingIbcTransfers pg sel rcvo) = Ok (s', r) ->
+    exists rcv p0 rest total maxid,
+      let ps := p0 :: rest in
+      let c := {| c_denom := c_denom (p_coin p0); c_amount := total |} in
+      (sel <> None -> admin s = Some (sender i))
+      /\ match rcvo with
+         | Some x => va x (nc_prefix (native (cfg s))) = true /\ rcv = x
+         | None => rcv = nc_staker (native (cfg s))
+         end
+      /\ match sel with
+         | Some ids => load_selected ids (inflight s) rcv [] = Ok ps
+         | None => ps = paginate (inflight s) None (if opt_default false pg then Some PAGE_SIZE else None) (recover_filter rcv)
+         end
+      /\ forallb (fun p => String.eqb (c_denom (p_coin p)) (c_denom (p_coin p0))) rest = true
+      /\ nlast_key (inflight s) = Some maxid
+      /\ sum_packets ps 0 = Some total
+      /\ s' = set_waitq (set_inflight s (fold_left (fun m p => nremove (p_seq p) m) ps (inflight s)))
+                (ninsert (maxid + 1) {| w_coin := c; w_receiver := rcv |} (waitq s))
+      /\ r = [transfer_sub s e (maxid + 1) rcv c (now_ns e + IBC_TIMEOUT_NS)].
+  Proof.
+    intros H. cbn [Staking.execute] in H. unfold recover in H. inv_ok H.
+    match goal with Hp : _ = Ok ?ps |- _ => match type of ps with list packet => destruct ps as [|p0 rest]; [discriminate|] end end.
+    inv_ok H.
+    repeat match goal with Hs : of_opt _ _ = Ok _ |- _ => apply of_opt_ok in Hs end.
+    match goal with Hs : add64 _ 1 = Some _ |- _ => apply add64_some in Hs as [-> _] end.
+    match goal with Hs : ibc_sub _ _ _ _ (Some _) = Ok ?p |- _ =>
+      destruct p as [s2 sub]; apply ibc_sub_ok in Hs as (-> & -> & Hw) end.
+    inversion H; subst s' r; clear H.
+    match goal with
+    | Hr : _ = Ok ?rcv, Hm : nlast_key _ = Some ?mx, Ht : sum_packets _ 0 = Some ?tot |- _ =>
+        match type of rcv with string => exists rcv, p0, rest, tot, mx; rename Hr into Er end
+    end.
+    cbv zeta.
+    split.
+    { intros Hsel. destruct sel as [ids|]; [| congruence].
+      match goal with Hs : assert_admin _ _ = Ok _ |- _ => eapply assert_admin_ok; exact Hs end. }
+    split.
+    { destruct rcvo as [x|].
+      - destruct (va x (nc_prefix (native (cfg s)))) eqn:Hv; [inversion Er; subst; split; reflexivity | discriminate].
+      - inversion Er; reflexivity. }
+    split.
+    { destruct sel as [ids|].
+      - assumption.
+      - match goal with Hs : Ok _ = Ok (p0 :: rest) |- _ => inversion Hs as [Hq]; reflexivity end. }
+    split; [assumption|]. split; [assumption|]. split; [assumption|].
+    split; reflexivity.
+  Qed.
+
+End Handlers6.
